@@ -270,6 +270,8 @@ def prologue(w, cfg, r):
         out.append(dict(op='configure', on=1))
     for k in range(min(cfg['nv'], 3)):
         out.append(dict(op='var', k=k))
+    if cfg.get('big_start'):
+        out.append(dict(op='inflate', seed=cfg['big_start'], target=300))
     return out
 
 
